@@ -228,6 +228,9 @@ type GatedListener struct {
 }
 
 func (g *GatedListener) complete(f func(), o string) {
+	// before the real completion (enabled only by the release-order scenarios): whatever the wrapper does ahead of giving
+	// the token back happens while the completion is parked here
+	g.c.gate("rel.enter", J{"for": g.For, "outcome": o})
 	g.c.lin.Lock()
 	g.done++
 	f()
